@@ -1406,7 +1406,8 @@ def topk(a, k, axis=-1, split_every=None):
         keepdims=True,
         dtype=a.dtype,
         split_every=split_every,
-        output_size=abs(k),
+        # there are no more than a.shape[axis] elements to select from
+        output_size=builtins.min(abs(k), a.shape[axis]),
     )
 
 
@@ -1477,7 +1478,8 @@ def argtopk(a, k, axis=-1, split_every=None):
         dtype=np.intp,
         split_every=split_every,
         concatenate=False,
-        output_size=abs(k),
+        # there are no more than a.shape[axis] elements to select from
+        output_size=builtins.min(abs(k), a.shape[axis]),
         meta=meta,
     )
 
